@@ -4,6 +4,7 @@ import Verif.C13.Model
 import Verif.C14.Model
 import Verif.C13.Loader
 import Verif.C13.Mask
+import Verif.C13.Link
 open Lean Verif.Proto Verif.C13 Verif.C14
 
 namespace Verif.C13.Driver
@@ -47,6 +48,7 @@ def engOf (tab : List EngEntry) : Eng := fun id s => (lookup tab id s).getD []
 
 structure RuleDef where
   id : Nat
+  pat : Str
   tpl : Str
   names : List (Str × Nat)
   ngroups : Nat
@@ -58,7 +60,7 @@ def ofName (j : Json) : Except String (Str × Nat) := do
   | _ => throw "bad name"
 
 def ofRuleDef (j : Json) : Except String RuleDef := do
-  pure { id := ← getNat j "id", tpl := ← getCps j "tpl", names := ← (← getArr j "names").mapM ofName,
+  pure { id := ← getNat j "id", pat := (getCps j "pat").toOption.getD [], tpl := ← getCps j "tpl", names := ← (← getArr j "names").mapM ofName,
          ngroups := ← getNat j "ngroups" }
 
 def loadDef (d : RuleDef) : Except Err Op :=
@@ -254,6 +256,36 @@ def ofSeps (j : Json) : Except String (Option (List (Nat × Nat))) :=
   | Json.arr a => do pure (some (← a.toList.mapM ofSep))
   | _ => pure none
 
+/-- the operation tree obtained from the TEXT: loader model on every module text (preloaded string
+modules first, the main text last), then `Link.linkModule`. -/
+def textOps (defs : List RuleDef) (j : Json) : Except String (List Op) := do
+  let lk ← j.getObjVal? "link"
+  let active ← (← getArr lk "active").mapM ofCps
+  let maskpats ← (← getArr lk "masks").mapM ofCps
+  let lts ← getArr j "ltexts"
+  let mut mods : List (Str × Loader.Module) := []
+  let mut main : Option (Loader.Module × List (Str × Loader.Module)) := none
+  for lt in lts do
+    let env ← Ld.envOf lt
+    let lines ← (← getArr lt "lines").mapM ofCps
+    let label ← getCps lt "label"
+    match Loader.loadLines env (← getNat lt "fuel") lines with
+    | .error e => throw s!"model: load {Ld.errTag e}"
+    | .ok (m, ms) =>
+      if label = "main".toList then main := some (m, ms) else mods := mods ++ [(label, m)]
+  match main with
+  | none => throw "no main text"
+  | some (m, ms) =>
+    let E : Link.LinkEnv := {
+      ruleId := fun p t => ((defs.find? (fun d => d.pat = p && d.tpl = t)).map (·.id)).getD 999999,
+      maskId := fun p => (maskpats.findIdx? (· = p)).getD 999999,
+      ngroups := fun p => ((defs.find? (fun d => d.pat = p)).map (·.ngroups)).getD 0,
+      names := fun p => ((defs.find? (fun d => d.pat = p)).map (·.names)).getD [],
+      mods := mods ++ ms, active := active }
+    match Link.linkModule E (← getNat j "fuel") m with
+    | .error e => throw s!"model: link {errTag e}"
+    | .ok ops => pure ops
+
 def handle (j : Json) : Except String Json := do
   let op ← getStr j "op"
   match op with
@@ -263,7 +295,13 @@ def handle (j : Json) : Except String Json := do
     if defs.any (fun d => match loadDef d with | .ok _ => false | .error _ => true) then
       return Json.mkObj [("load", load)]
     let lines ← (← getArr j "prog").mapM (ofLine defs)
-    let ops := flattenLines lines
+    let opsTree := flattenLines lines
+    -- with "link": run what the TEXT gives (load + link); report whether the harness's tree is the same
+    let (ops, agree) ← match j.getObjVal? "link" with
+      | .ok _ => do
+        let o ← textOps defs j
+        pure (o, Json.bool (reprStr o == reprStr opsTree))
+      | .error _ => pure (opsTree, Json.null)
     let tab ← (← getArr j "eng").mapM ofEngEntry
     let inputs ← (← getArr j "inputs").mapM ofCps
     let sepsL ← (← getArr j "seps").mapM ofSeps
@@ -279,7 +317,8 @@ def handle (j : Json) : Except String Json := do
           let lines ← (← getArr lt "lines").mapM ofCps
           pure (Ld.jLoaded (Loader.loadLines env (← getNat lt "fuel") lines)))
       | _ => pure []
-    pure (Json.mkObj [("load", load), ("runs", Json.arr runs.toArray), ("loaded", Json.arr loaded.toArray)])
+    pure (Json.mkObj [("load", load), ("runs", Json.arr runs.toArray), ("loaded", Json.arr loaded.toArray),
+                      ("treeagree", agree)])
   | "load" => Ld.handleLoad j
   | "render" => Ld.handleRender j
   | "yy" =>
